@@ -358,6 +358,13 @@ func (e *Engine) Edit(kind string) bool {
 		rel := cands[r.IntN(len(cands))]
 		delete(e.P.Missing, rel)
 		os.WriteFile(filepath.Join(root, rel), []byte(e.P.Srcs[rel]), 0o644)
+		// The content is back to what the targets listing it last saw. If another target that
+		// shares the source was built while it was missing, the source's record moved on and dawn
+		// re-executes every target listing it (known finding, named scenario of C02): no
+		// expectation either way for them.
+		for _, t := range e.srcTargets(rel) {
+			e.uncertain(t.Label())
+		}
 		e.step("edit", "src-restore "+rel)
 	case "src-touch":
 		srcs := e.sortedSrcs()
@@ -402,7 +409,15 @@ func (e *Engine) Edit(kind string) bool {
 			}
 			e.step("edit", "dir-add "+rel)
 		case "dir-del":
-			if len(members) < 2 {
+			// never empty a directory: an empty directory cannot be reproduced in the from-scratch
+			// copy, which is written file by file
+			siblings := 0
+			for _, o := range members {
+				if filepath.Dir(o) == filepath.Dir(m) {
+					siblings++
+				}
+			}
+			if siblings < 2 {
 				return false
 			}
 			for _, t := range e.srcTargets(m) {
@@ -812,8 +827,11 @@ func (e *Engine) Outputs(target string) []string {
 // CleanBuildCompare builds target from scratch in a copy of the tree (sources and build
 // files only) and compares every generated file of its closure with the incremental tree.
 func (e *Engine) CleanBuildCompare(target string, scratch string) []Finding {
+	os.RemoveAll(scratch)
 	cs := NewSession(scratch)
-	defer os.RemoveAll(scratch)
+	if os.Getenv("VERIF_KEEP") == "" {
+		defer os.RemoveAll(scratch)
+	}
 	e.P.WriteAll(cs.Root)
 	res := Build(BuildReq{Root: cs.Root, Target: target, Args: e.P.Args})
 	if res.LoadErr != "" || res.RunErr != "" {
